@@ -12,6 +12,10 @@
   moves raw bytes — the predecessor relocation of `Tree_Rem` — is modelled as that block move (`relocate`).
   Histories are well typed (`WellTyped`): `new` and `set` are given keys / values of the sizes of the tree's key / value
   types (in C, `cast` raises otherwise), where a tree's types are fixed by `new` and taken over by `assign` / `copy`.
+  Source-derived data: CelloGen/Tree.lean (translate/g_tree.py, regenerated from src/Tree.c on every run). The model USES
+  them — offsets and widths of the node payload, the sign tests of the four descent loops, the `self is obj` guard — and
+  the `…_current_source` theorems below say what the proofs need of them (`SourceOk`); every refinement theorem of this file
+  is proved from `C03_current_source`.
 -/
 import CelloProofs.Lemmas.RBStore
 import CelloProofs.Lemmas.RBHeight
@@ -21,6 +25,69 @@ namespace Cello.RB
 open Std
 
 variable {α β : Type}
+
+/-! ### the source-derived facts the model stands on (first, so that a source change that breaks one is named first) -/
+
+/-- **Node layout of the source as it is now.** For every width of `struct Header`, of the key type and of the value type
+    (`y`), the expressions read from `Tree_Alloc`, `Tree_Key`, `Tree_Val` and the `memcpy` of `Tree_Rem` evaluate to:
+    key header at the payload start, key after one header, value header after the key, value after that header; the node
+    has room for exactly header + key + header + value, and **the relocation memcpy moves exactly that many bytes** (`LayoutOk`).
+    Moreover the link words are where the model's zipper assumes nothing else lives: `Tree_Left`, `Tree_Right` and the
+    parent-and-colour word are three different words in front of the payload, every place that computes the payload start
+    (Tree_Key, Tree_Val, Tree_Alloc ×3, both memcpy arguments, the cursor-to-node step of Tree_Iter_Next / Tree_Iter_Prev /
+    Tree_Hash / Tree_Show / Tree_Mark) uses the same `K * sizeof(var)`, the cursor-to-node step undoes `Tree_Key`, and
+    `ksize` / `vsize` are `size(ktype)` / `size(vtype)` in Tree_New and Tree_Assign. -/
+theorem C03_layout_current_source :
+    LayoutOk ∧
+    (CelloGen.Tree.leftLink ≠ CelloGen.Tree.rightLink ∧
+     ∀ p ∈ CelloGen.Tree.parentLinks, ∀ s ∈ CelloGen.Tree.payloadStarts,
+       p.2 ≠ CelloGen.Tree.leftLink ∧ p.2 ≠ CelloGen.Tree.rightLink ∧ p.2 < s.2 ∧
+       CelloGen.Tree.leftLink < s.2 ∧ CelloGen.Tree.rightLink < s.2 ∧
+       some p = CelloGen.Tree.parentLinks.head?.map (fun q => (p.1, q.2)) ∧
+       some s = CelloGen.Tree.payloadStarts.head?.map (fun q => (s.1, q.2))) ∧
+    (CelloGen.Tree.cursorToNode.map (·.1) = ["Tree_Iter_Next", "Tree_Iter_Prev", "Tree_Hash", "Tree_Show", "Tree_Mark"] ∧
+     ∀ c ∈ CelloGen.Tree.cursorToNode, ∀ y : Lay, y.eval c.2 = y.keyOff) ∧
+    CelloGen.Tree.sizesFromTypes = true := by
+  refine ⟨fun y => ?_, by decide, ⟨rfl, ?_⟩, rfl⟩
+  · simp only [Lay.keyHdrOff, Lay.keyOff, Lay.valHdrOff, Lay.valOff, Lay.entryLen, Lay.moveLen, Lay.eval,
+      CelloGen.Tree.keyHeaderOff, CelloGen.Tree.keyOff, CelloGen.Tree.valHeaderOff, CelloGen.Tree.valOff,
+      CelloGen.Tree.allocSize, CelloGen.Tree.remMoveSize]
+    and_intros <;> first | trivial | omega
+  · intro c hc y
+    simp only [CelloGen.Tree.cursorToNode, List.mem_cons, List.not_mem_nil, or_false] at hc
+    rcases hc with rfl | rfl | rfl | rfl | rfl <;>
+      simp only [Lay.keyOff, Lay.eval, CelloGen.Tree.keyOff]
+
+/-- **Descent loops of the source as they are now.** `Tree_Set`, `Tree_Get`, `Tree_Mem` and `Tree_Rem` all compute
+    `c = cmp(Tree_Key(m, node), key)` and go to `Tree_Left` for `c < 0`, to `Tree_Right` for `c > 0` — the same way in all
+    four, which is what makes a key that `Tree_Set` stored findable by the other three (`DescentOk`; the model's four
+    operations take their turns from these data through `orient`). -/
+theorem C03_descent_current_source : DescentOk := by
+  refine ⟨rfl, rfl, rfl, rfl⟩
+
+/-- **`Tree_Assign` of the source as it is now**: the only early return in front of `Tree_Clear(self)` is `self is obj`
+    (so `assign(t, s)` with `s ≠ t` always clears `t`, takes over the types and copies every binding — also when `s` is
+    empty — and `assign(t, t)` changes nothing). -/
+theorem C03_assign_current_source :
+    CelloGen.Tree.assignGuards = ["self is obj"] ∧ CelloGen.Tree.assignGuardsSelf = true :=
+  ⟨rfl, rfl⟩
+
+/-- **The code the model mirrors is the code in /repo now**: the statements of the `while (true)` bodies of `Tree_Set_Fix`
+    and `Tree_Rem_Fix` — every case as (condition chain, actions) — and the bodies of the other functions the model follows
+    one to one (colour and parent words, Tree_Alloc, Tree_New, Tree_Clear, Tree_Assign after its guards, Tree_Mem, Tree_Get,
+    Tree_Maximum, Tree_Sibling / Grandparent / Uncle, Tree_Replace, the rotations, Tree_Set, Tree_Rem, the four iterator
+    functions, Tree_Resize), whitespace-normalised, with the data of the three theorems above masked, are the texts
+    `setFix`, `remFix` (`remCase2`, `remFixBody`, `remCase5`, `remCase6`), `insAt`, `remAt` / `remHere` / `spliceOut`, … were
+    written against. -/
+theorem C03_source_as_modelled :
+    CelloGen.Tree.setFixCases = CelloGen.Tree.setFixCasesModelled ∧
+    CelloGen.Tree.remFixCases = CelloGen.Tree.remFixCasesModelled ∧
+    CelloGen.Tree.shape = CelloGen.Tree.shapeModelled :=
+  ⟨rfl, rfl, rfl⟩
+
+/-- everything the refinement proof uses of the generated data -/
+theorem C03_current_source : SourceOk :=
+  ⟨C03_layout_current_source.1, C03_descent_current_source, C03_assign_current_source.2⟩
 
 /-- **C03 (T1), refinement.** For every comparison that is a lawful order and every history of
     new / set / rem / get / mem / len / resize / assign / copy / iter / riter / del over any number of trees
@@ -44,7 +111,7 @@ theorem C03_refines_ordered_map [Packed α] [Packed β] [LawfulPacked α] [Lawfu
       os = (Spec.run cmp [] ops).2 ∧
       absStore st = (Spec.run cmp [] ops).1 ∧
       AllValid cmp st := by
-  obtain ⟨st, os, h1, h2, h3⟩ := run_refines (cmp := cmp) ops [] AllValid.nil hty
+  obtain ⟨st, os, h1, h2, h3⟩ := run_refines (cmp := cmp) C03_current_source ops [] AllValid.nil hty
   have h2' : Spec.run cmp [] ops = (absStore st, os) := h2
   exact ⟨st, os, h1, by rw [h2'], by rw [h2'], h3⟩
 
@@ -54,16 +121,19 @@ theorem C03_step_refines [Packed α] [Packed β] [LawfulPacked α] [LawfulPacked
     (hv : AllValid cmp st) (hty : op.typed (sizeStore st)) :
     ∃ st' o, step cmp st op = some (st', o) ∧ Spec.step cmp (absStore st) op = (absStore st', o) ∧
       AllValid cmp st' ∧ tyStep (sizeStore st) op = sizeStore st' :=
-  step_refines st op hv hty
+  step_refines C03_current_source st op hv hty
 
 /-- **The memcpy of `Tree_Rem` carries the whole entry.** For every header width, key width and value width: if the
     predecessor's key and value have the sizes of the Tree's key and value types, then after
     `memcpy(node + 3*sizeof(var), pred + 3*sizeof(var), sizeof(Header) + ksize + sizeof(Header) + vsize)` the node holds
-    exactly the predecessor's key and the predecessor's complete value, whatever it held before. -/
+    exactly the predecessor's key and the predecessor's complete value, whatever it held before.
+    `relocate` moves `Lay.moveLen` = the width expression of the memcpy **as generated from the source**, reads the key and
+    the value back at `Tree_Key` / `Tree_Val` as generated, from payloads written at the places `Tree_Alloc` and `Tree_Set`
+    write them as generated; the proof goes through `C03_layout_current_source`. -/
 theorem C03_relocation_moves_whole_entry [Packed α] [Packed β] [LawfulPacked α] [LawfulPacked β]
     (y : Lay) (dst src : α × β) (h : FitsLay y src) :
     relocate y dst src = some src :=
-  relocate_fits y dst src h
+  relocate_fits C03_layout_current_source.1 y dst src h
 
 /-- **…and no shorter block does**: a move of `n` words that ends inside the value (`Tree_Val` offset ≤ n ≤ block
     length) leaves at `Tree_Val(node)` the first `n − valOff` words of the predecessor's value followed by the remaining
@@ -74,7 +144,7 @@ theorem C03_relocation_width_matters [Packed α] [Packed β]
     (n : Nat) (h1 : y.valOff ≤ n) (h2 : n ≤ y.entryLen) :
     valAt y (memcpyW n (entryWords y dst) (entryWords y src)) =
       (Packed.words src.2).take (n - y.valOff) ++ (Packed.words dst.2).drop (n - y.valOff) :=
-  valAt_short y dst src hd hs n h1 h2
+  valAt_short C03_layout_current_source.1 y dst src hd hs n h1 h2
 
 /-- **The specification is an ordered finite map**: lists stay strictly sorted; lookup after insertion / removal is what
     a map gives; `len` counts the bindings. (So "refines the sorted association list" means "behaves as an ordered map".) -/
@@ -97,16 +167,16 @@ theorem C03_keyerror_iff_absent [Packed α] [Packed β] [LawfulPacked α] [Lawfu
     (m.len = m.abs.length) ∧
     (Spec.get cmp k m.abs = none → m.rem cmp k = some (m, .raised .KeyError)) ∧
     ((Spec.get cmp k m.abs).isSome → ∃ m', m.rem cmp k = some (m', .ok ()) ∧ m'.abs = Spec.rem cmp k m.abs) := by
-  refine ⟨?_, ?_, mem_eq m k hv, hv.len_eq, ?_, ?_⟩
-  · rw [get_eq m k hv]; cases Spec.get cmp k m.abs <;> simp [lookupOutcome]
-  · intro v; rw [get_eq m k hv]; cases Spec.get cmp k m.abs <;> simp [lookupOutcome]
+  refine ⟨?_, ?_, mem_eq C03_current_source m k hv, hv.len_eq, ?_, ?_⟩
+  · rw [get_eq C03_current_source m k hv]; cases Spec.get cmp k m.abs <;> simp [lookupOutcome]
+  · intro v; rw [get_eq C03_current_source m k hv]; cases Spec.get cmp k m.abs <;> simp [lookupOutcome]
   · intro hn
-    obtain ⟨m', o, e, _, _, h⟩ := rem_valid m k hv
+    obtain ⟨m', o, e, _, _, h⟩ := rem_valid C03_current_source m k hv
     rcases h with ⟨_, rfl, rfl⟩ | ⟨h1, _, _⟩
     · exact e
     · rw [hn] at h1; cases h1
   · intro hs
-    obtain ⟨m', o, e, _, _, h⟩ := rem_valid m k hv
+    obtain ⟨m', o, e, _, _, h⟩ := rem_valid C03_current_source m k hv
     rcases h with ⟨h1, _, _⟩ | ⟨_, rfl, h3⟩
     · rw [h1] at hs; cases hs
     · exact ⟨m', e, h3⟩
@@ -134,14 +204,14 @@ theorem C03_balanced_set [Packed α] [Packed β]
     (cmp : α → α → Ordering) [TransCmp cmp] (m : Tree α β) (hv : Valid cmp m) (k : α) (v : β)
     (hkv : Fits m.sizes (k, v)) :
     ∃ m', m.set cmp k v = some m' ∧ Valid cmp m' ∧ m'.abs = Spec.set cmp k v m.abs := by
-  obtain ⟨m', e, v', a, _⟩ := set_valid m k v hv hkv
+  obtain ⟨m', e, v', a, _⟩ := set_valid C03_current_source m k v hv hkv
   exact ⟨m', e, v', a⟩
 
 /-- **C03 (T2), balance is preserved by removal** (all cases of `Tree_Rem_Fix`, predecessor copy, root removal). -/
 theorem C03_balanced_rem [Packed α] [Packed β] [LawfulPacked α] [LawfulPacked β]
     (cmp : α → α → Ordering) [TransCmp cmp] (m : Tree α β) (hv : Valid cmp m) (k : α) :
     ∃ m' o, m.rem cmp k = some (m', o) ∧ Valid cmp m' := by
-  obtain ⟨m', o, e, v, _⟩ := rem_valid m k hv
+  obtain ⟨m', o, e, v, _⟩ := rem_valid C03_current_source m k hv
   exact ⟨m', o, e, v⟩
 
 /-- **C03 (T2), height bound**: a valid tree with `n` bindings has height at most `2·log2(n+1)`
